@@ -98,6 +98,7 @@ func (e *Engine) RunPath(pkg *ssa.Package, fnName string, prefix []int64) (res P
 	Sched = newScheduler()
 	resetIntrinsicState()
 	lastPanicStack = ""
+	unsupStack = ""
 	i.funcsRun = map[*ssa.Function]bool{}
 	q0, ns0 := e.S.Queries, e.S.SolverNs
 	e.S.Push()
@@ -161,6 +162,9 @@ func (e *Engine) RunPath(pkg *ssa.Package, fnName string, prefix []int64) (res P
 	}()
 	if res.Status == "panic" || res.Status == "unsupported" {
 		res.Msg += " @" + lastPanicStack
+	}
+	if res.Status == "unsupported" && lastPanicStack == "" && unsupStack != "" {
+		res.Msg += " @" + unsupStack
 	}
 	if inInit && (res.Status == "panic" || res.Status == "deadlock") {
 		res.Status = "unsupported"
@@ -237,6 +241,7 @@ func findMethod(i *interpreter, t types.Type, name string) *ssa.Function {
 }
 
 var inInit bool
+var unsupStack string
 
 var resetHooks []func()
 
